@@ -176,6 +176,11 @@ pub(super) mod http1 {
         }
 
         if req.request().method() == http::Method::CONNECT {
+            if req.request().uri().authority().is_none() {
+                // A CONNECT request names its target in the authority, there is nothing to send.
+                return Err(Error::InvalidMethod(http::Method::CONNECT));
+            }
+
             authority_form(req.request_mut().uri_mut());
 
             // If the URI is to HTTPS, and the connector claimed to be a proxy,
@@ -212,13 +217,9 @@ pub(super) mod http1 {
         };
     }
 
-    fn absolute_form(uri: &mut Uri) {
-        debug_assert!(uri.scheme().is_some(), "absolute_form needs a scheme");
-        debug_assert!(
-            uri.authority().is_some(),
-            "absolute_form needs an authority"
-        );
-    }
+    /// A URI without scheme or authority can't be turned into absolute-form:
+    /// it is sent as it is (origin-form, authority-form or `*`).
+    fn absolute_form(_uri: &mut Uri) {}
 
     /// Convert the URI to origin-form, if it is not already.
     ///
